@@ -160,11 +160,16 @@ def binary_arm(ctx, binp, gen_events):
     chosen = chosen[:60]
     env = dict(os.environ); env.update(NO_COLOR='1', NO_DECODE_PROGRESS='1')
     for e in chosen:
-        try:
-            p = subprocess.run([fq] + e['argv'], cwd=fx, env=env, stdin=open(os.path.join(fx, 'stdin_' + e['stdin']), 'rb'),
-                               stdout=subprocess.PIPE, stderr=subprocess.PIPE, timeout=60)
-        except subprocess.TimeoutExpired:
-            raise Inconclusive('fq binary timed out on %s' % e['argv'])
+        p = None
+        for attempt in (1, 2):       # the shared machine stalls now and then: one retry before giving up
+            try:
+                p = subprocess.run([fq] + e['argv'], cwd=fx, env=env, stdin=open(os.path.join(fx, 'stdin_' + e['stdin']), 'rb'),
+                                   stdout=subprocess.PIPE, stderr=subprocess.PIPE, timeout=120)
+                break
+            except subprocess.TimeoutExpired:
+                pass
+        if p is None:
+            raise Inconclusive('fq binary timed out twice on %s' % e['argv'])
         out = p.stdout.decode('utf-8', 'replace').replace('\x00', '<NUL>')
         if p.returncode != e['exit']:
             ctx.finding('cli.process_exit_differs_from_interp_main', 'fq %s: process exit %d, interp.Main exit class %d' % (e['argv'], p.returncode, e['exit']),
@@ -269,10 +274,10 @@ def run(ctx):
         raise Inconclusive('GEN(e2e) produced too few cases')
     cases.sort(key=lambda c: json.dumps([c['fam'], c['group'], c['argv'], c['stdin']]))
     if thorough:
-        cases = [c for c in cases if not (c['fam'] == 'loop' and len(c['fidx']) >= 4 and ctx.rng.random() > 0.25)]
+        cases = [c for c in cases if not (c['fam'] == 'loop' and len(c['fidx']) >= 4 and ctx.rng.random() > 0.15)]
     else:
         # quick: seeded sample (55%) of the loop family (all lists of <= 2 inputs + all orders of three failure classes) and of the
-        # format/bind/argerr families (40%), 12 law groups; thorough replays everything up to 3 inputs and a quarter of the 4-input lists
+        # format/bind/argerr families (40%), 12 law groups; thorough replays everything up to 3 inputs and 15% of the 4-input lists
         groups = sorted({c['group'] for c in cases if c['fam'].startswith('law:')})
         keepg = set(ctx.rng.sample(groups, min(len(groups), 12))) | {'negnum', 'dashfile', 'dashfile2', 'dashprog'}
         kept = []
@@ -298,7 +303,7 @@ def run(ctx):
     if len(gen_events) != len(cases):
         raise Inconclusive('replay lost cases')
     # TV driver: seeded random longer/mixed command lines
-    nrand = 2000 if thorough else 200
+    nrand = 1500 if thorough else 200
     rpath = os.path.join(ctx.build, 'rand_events.ndjson')
     t0 = time.time()
     ctx.run([binp, 'rand', str(nrand), rpath], check=True, timeout=1500)
